@@ -1,7 +1,7 @@
 SPECIFICATION Spec
 CONSTANTS
   Digests = {"d1", "d2"}
-  MaxUpd = 3
+  MaxUpd = 2
   MaxExecs = 2
   MaxClock = 3
   Minute = 2
